@@ -58,7 +58,7 @@ func newGen(r *Rng) *gen {
 	g := &gen{r: r}
 	basePrices := []string{"618.13", "1.0", "0.85", "2000.0"}
 	cfs := []string{"100000000", "100000000", "1000000", "1000000000000000000"}
-	profile := r.Pick(50, 20, 16, 14) // standard, wild, bad-debt script, split-valuation script
+	profile := r.Pick(48, 19, 15, 13, 5) // standard, wild, bad-debt script, split-valuation script, reserve-borrow script
 	for d := 0; d < nMkt; d++ {
 		m := MarketCfg{CF: cfs[d], LTV: pick(r, "0.5", "0.6", "0.8", "0.75"), Max: "0.0",
 			Reserve: pick(r, "0.025", "0.05", "0.1"), Keeper: pick(r, "0.05", "0.05", "0.01", "0.0"),
@@ -91,6 +91,8 @@ func newGen(r *Rng) *gen {
 		g.scriptBadDebt()
 	case 3:
 		g.scriptSplitValuation()
+	case 4:
+		g.scriptReserveBorrow()
 	}
 	return g
 }
@@ -592,5 +594,39 @@ func (g *gen) scriptSplitValuation() {
 			return Op{Kind: "borrow", A: 1, Coins: one(b, w.maxBorrow(1, b)), X2: "boundary+0"}
 		}),
 		step(func(w *world, s *snap) Op { return Op{Kind: "liquidate", A: 2, B: 1} }),
+	}
+}
+
+// reserve borrow (C02 side finding): with a reserve factor of one all interest of a single
+// borrower goes to the reserves; after the borrower repays and the only supplier withdraws,
+// cash == reserves exactly and nothing is borrowed.  Any borrow of that denom is then accepted
+// (Coins.IsAnyGT ignores the zero available amount) and the next accruing begin block divides
+// by zero.
+func (g *gen) scriptReserveBorrow() {
+	r := g.r
+	a, col := 0, 1
+	g.cfg.Markets[a].Reserve = "1.0"
+	g.cfg.Markets[a].Base = pick(r, "0.05", "0.5")
+	g.cfg.Markets[a].HasMax = false
+	g.cfg.Markets[col].HasMax = false
+	g.cfg.Markets[col].LTV = "0.8"
+	g.cfg.MinBorrow = "0.0"
+	step := func(f func(w *world, s *snap) Op) func(w *world, s *snap) (Op, bool) {
+		return func(w *world, s *snap) (Op, bool) { return f(w, s), true }
+	}
+	x := int64(1000 + r.Intn(9000))
+	g.script = []func(w *world, s *snap) (Op, bool){
+		step(func(w *world, s *snap) Op { return Op{Kind: "deposit", A: 0, Coins: one(a, w.unitsFor(s, a, x, 1))} }),
+		step(func(w *world, s *snap) Op { return Op{Kind: "deposit", A: 1, Coins: one(col, w.unitsFor(s, col, 4*x, 1))} }),
+		step(func(w *world, s *snap) Op { return Op{Kind: "borrow", A: 1, Coins: one(a, w.unitsFor(s, a, x/2, 1))} }),
+		step(func(w *world, s *snap) Op { return Op{Kind: "block", T: int64(30+r.Intn(300)) * 86400} }),
+		step(func(w *world, s *snap) Op {
+			return Op{Kind: "repay", A: 1, B: 1, Coins: one(a, new(big.Int).Mul(w.unitsFor(s, a, x, 1), big.NewInt(1000)))}
+		}),
+		step(func(w *world, s *snap) Op {
+			return Op{Kind: "withdraw", A: 0, Coins: one(a, new(big.Int).Mul(w.unitsFor(s, a, x, 1), big.NewInt(1000)))}
+		}),
+		step(func(w *world, s *snap) Op { return Op{Kind: "borrow", A: 1, Coins: one(a, big.NewInt(int64(1+r.Intn(3))))} }),
+		step(func(w *world, s *snap) Op { return Op{Kind: "block", T: 86400} }),
 	}
 }
